@@ -277,7 +277,6 @@ def classify(row, failed):
 
 def run(ctx):
     global CASES
-    tc.deterministic_hashing(ctx)
     env.init()
     maxops = 3
     parts = enumerate_transforms(ctx, maxops, "A")
@@ -288,8 +287,7 @@ def run(ctx):
         ctx.machinery("conflict families never produced by the enumeration: %s" % missing)
     n_a = len(parts)
     if not ctx.quick:
-        partsb = enumerate_transforms(ctx, maxops, "B")
-        parts = {"A": parts, "B": partsb}.get(os.environ.get("VF_C14_ORDERS"), parts + partsb)
+        parts = parts + enumerate_transforms(ctx, maxops, "B")
     if ctx.quick:
         parts = [parts[i] for i in sorted(ctx.rng.sample(range(len(parts)), min(len(parts), 1000)))]
     else:
@@ -302,9 +300,6 @@ def run(ctx):
     rows = ctx.collected
     if not rows:
         ctx.machinery("no real executions recorded")
-    if os.environ.get("VF_C14_DUMP"):
-        import json
-        json.dump(rows, open(os.environ["VF_C14_DUMP"], "w"))
     ctx.cov["transforms_enumerated"] = n_a
     ctx.cov["transforms_run"] = len(idx)
     stats = {}
